@@ -248,7 +248,7 @@ func c11CC(c *core.Ctx, k *gctx) {
 	t0 = time.Now()
 	var mu sync.Mutex
 	for _, r := range results {
-		if r.cpath == "" || (r.prog.Known && !c.Thorough()) {
+		if r.cpath == "" {
 			continue // known findings are handed to the C compilers in the thorough tier only (each costs three compiler runs)
 		}
 		for _, cc := range ccCompilers {
@@ -309,29 +309,36 @@ func c11CC(c *core.Ctx, k *gctx) {
 			anchor = "generated:" + p.Name
 		}
 		if p.Known {
+			// A program of corpus/ccompile-known/ is an accepted program whose C was
+			// rejected on the tree the corpus was derived from: a genuine defect that is
+			// recorded (known-findings.txt) rather than repaired. It is checked like
+			// every other corpus program; the `known:` line for (CC.compile, anchor)
+			// turns the failure into a KNOWN-FINDING line. One obligation per program.
 			nKnown++
 			switch {
 			case r.cpath == "" && r.crashed:
-				c.Info("CC.known", anchor, "wuffs-c CRASHES on this program: "+ccShort(r.genErr, 300))
+				c.Fail("CC.crash", anchor, "the compiler does not crash on a corpus program (C11: the toolchain never crashes)", 1, ccShort(r.genErr, 1500))
 			case r.cpath == "":
-				c.Info("CC.known", anchor, "no longer accepted by wuffs-c (the finding is moot or the program is stale): "+ccShort(r.genErr, 200))
-			case !c.Thorough():
-				c.Info("CC.known", anchor, "still accepted by wuffs-c; what the C compilers say about it is reported by the thorough tier")
+				c.Pass("CC.compile", anchor, claimCompile, 1, "no longer accepted by wuffs-c (the recorded finding is moot: the front end now refuses the program): "+ccShort(r.genErr, 200))
 			default:
 				var bad []string
 				first := ""
+				n := 0
 				for _, cc := range ccCompilers {
-					if d, ok := r.cc[cc.Name]; ok && d != "" {
-						bad = append(bad, cc.Name)
-						if first == "" {
-							first = d
+					if d, ok := r.cc[cc.Name]; ok {
+						n++
+						if d != "" {
+							bad = append(bad, cc.Name)
+							if first == "" {
+								first = d
+							}
 						}
 					}
 				}
 				if len(bad) == 0 {
-					c.Info("CC.known", anchor, "now accepted by every C compiler: the finding is repaired; move the program to corpus/ccompile/")
+					c.Pass("CC.compile", anchor, claimCompile, n, "accepted by every C compiler (the recorded finding is repaired; the program can move to corpus/ccompile/)")
 				} else {
-					c.Info("CC.known", anchor, "accepted by wuffs-c, C rejected by "+strings.Join(bad, ", ")+": "+ccShort(first, 400))
+					c.Fail("CC.compile", anchor, claimCompile, n, "accepted by wuffs-c, C rejected by "+strings.Join(bad, ", ")+": "+ccShort(first, 600))
 				}
 			}
 			continue
